@@ -13,6 +13,7 @@ import (
 	"go/ast"
 	"go/constant"
 	"go/token"
+	"go/types"
 	"os"
 	"path/filepath"
 	"sort"
@@ -96,6 +97,102 @@ func genC11() {
 			}
 		}
 	}
+	// process-global state reachable from the filter / slot code (dimension audit, item 4): package-level variables of
+	// the packages C10 / C11 rest on that are WRITTEN outside init (assigned, ++/--, element or field assigned, address
+	// taken) - each is a first-use / concurrent-use dimension the harness would have to draw; today there must be none
+	globals := []string{}
+	for _, rel := range []string{"pkg/filter", "pkg/redis/keyspec", "pkg/redis", "pkg/digest", "pkg/redis/client/cluster"} {
+		pk := func() (pk *gfPackage) {
+			defer func() {
+				if r := recover(); r != nil {
+					if _, ok := r.(genErr); ok {
+						globals = append(globals, rel+": package not type-checked")
+						pk = nil
+						return
+					}
+					panic(r)
+				}
+			}()
+			return gfLoad(rel)
+		}()
+		if pk == nil {
+			continue
+		}
+		isGlobal := func(e ast.Expr) (string, bool) {
+			for {
+				switch x := e.(type) {
+				case *ast.ParenExpr:
+					e = x.X
+					continue
+				case *ast.IndexExpr:
+					e = x.X
+					continue
+				case *ast.SelectorExpr:
+					if _, isField := pk.info.Selections[x]; isField {
+						e = x.X
+						continue
+					}
+					return "", false
+				case *ast.StarExpr:
+					e = x.X
+					continue
+				case *ast.Ident:
+					if v, ok := pk.info.Uses[x].(*types.Var); ok && !v.IsField() && v.Parent() == pk.pkg.Scope() {
+						return x.Name, true
+					}
+					return "", false
+				}
+				return "", false
+			}
+		}
+		for _, file := range pk.files {
+			fname := filepath.Base(pk.fset.Position(file.Pos()).Filename)
+			for _, d := range file.Decls {
+				fd, ok := d.(*ast.FuncDecl)
+				if !ok || fd.Body == nil || (fd.Name.Name == "init" && fd.Recv == nil) {
+					continue
+				}
+				note := func(e ast.Expr, how string) {
+					if n, ok := isGlobal(e); ok {
+						globals = append(globals, fmt.Sprintf("%s/%s:%s: %s %s", rel, fname, fd.Name.Name, how, n))
+					}
+				}
+				ast.Inspect(fd.Body, func(n ast.Node) bool {
+					switch x := n.(type) {
+					case *ast.AssignStmt:
+						if x.Tok != token.DEFINE {
+							for _, l := range x.Lhs {
+								note(l, "assigns")
+							}
+						}
+					case *ast.IncDecStmt:
+						note(x.X, "assigns")
+					case *ast.UnaryExpr:
+						if x.Op == token.AND {
+							note(x.X, "takes the address of")
+						}
+					case *ast.CallExpr:
+						// a method called on a package-level variable (atomic.Value.Store, sync.Once.Do, a cache's Put ...)
+						if sel, ok := x.Fun.(*ast.SelectorExpr); ok {
+							if sl := pk.info.Selections[sel]; sl != nil && sl.Kind() == types.MethodVal {
+								note(sel.X, "calls "+sel.Sel.Name+" on")
+							} else if sl == nil {
+								// a method of a type from a package that is not loaded (sync/atomic ...): no selection is recorded
+								if id, ok := sel.X.(*ast.Ident); ok {
+									if v, ok := pk.info.Uses[id].(*types.Var); ok && !v.IsField() && v.Parent() == pk.pkg.Scope() {
+										globals = append(globals, fmt.Sprintf("%s/%s:%s: calls %s on %s", rel, fname, fd.Name.Name, sel.Sel.Name, id.Name))
+									}
+								}
+							}
+						}
+					}
+					return true
+				})
+			}
+		}
+	}
+	sort.Strings(globals)
+	facts["slot_filter_globals_written"] = globals
 	sort.Strings(sites)
 	facts["slot_arith_by_value"] = sites
 	facts["slot_value_scan_skipped"] = skipped
